@@ -19,6 +19,7 @@ import (
 	"encoding/binary"
 	"fmt"
 	"os"
+	"runtime"
 	"runtime/debug"
 	"strings"
 	"sync"
@@ -51,8 +52,16 @@ const (
 
 type abortSentinel struct{}
 
-// Aborted is the value a task panics with when it is torn down.
+// Aborted is kept for harness code that wants to recognise a teardown; tasks are torn down with
+// runtime.Goexit (see tearDown), which code under test cannot recover from.
 var Aborted = abortSentinel{}
+
+// tearDown ends the calling task: its deferred functions run and the goroutine exits. A panic would
+// do the same only as long as nothing on the stack recovers it; code under test does recover panics
+// (tileReader.ReadTiles), and a torn-down task that carries on would block for real.
+func tearDown() {
+	runtime.Goexit()
+}
 
 type task struct {
 	id       int
@@ -478,7 +487,7 @@ func park(id, kind int, key uint64, label string) {
 	cmd, _ := waitWake(id)
 	if cmd == cmdAbort {
 		abortedFlag[id] = true
-		panic(Aborted)
+		tearDown()
 	}
 }
 
@@ -493,14 +502,14 @@ func Yield(label string) {
 	}
 	if abortedFlag[id] {
 		// a torn-down task must not perform any further external operation
-		panic(Aborted)
+		tearDown()
 	}
 	park(id, kindYield, 0, label)
 }
 
 // ExitGroup is called by a task whose simulated process exits (os.Exit in a callback): the scheduler
-// tears down every task of the group once the caller has unwound; the caller itself panics with
-// Aborted and so never returns into the code under test.
+// tears down every task of the group once the caller has unwound; the caller itself is torn
+// down and so never returns into the code under test.
 func ExitGroup(group int) {
 	if active.Load() == nil {
 		return
@@ -511,7 +520,7 @@ func ExitGroup(group int) {
 	}
 	sendMsg(msgCtl, id, uint64(group), 0, "")
 	abortedFlag[id] = true
-	panic(Aborted)
+	tearDown()
 }
 
 // IsAborted reports whether the calling task has been torn down.
@@ -536,7 +545,7 @@ func HookLock(mu *sync.Mutex, label string) {
 			mu.Unlock()
 			return
 		}
-		panic(Aborted)
+		tearDown()
 	}
 	for {
 		kind := kindYield
@@ -589,7 +598,7 @@ func HookSpawn() func() func() {
 		return nop
 	}
 	if abortedFlag[id] {
-		panic(Aborted)
+		tearDown()
 	}
 	sendMsg(msgSpawn, id, 0, 0, "")
 	cmd, child := waitWake(id)
